@@ -127,3 +127,68 @@ Theorem C06_wrapper_nomask_correct : forall code P b f mode dt X k,
   run_op code dt X None (Some k) = Some (iter (if mode =? -2 then k else Z.to_nat mode) (op_rule P b) X).
 Proof. exact wrapper_nomask_correct. Qed.
 Print Assumptions C06_wrapper_nomask_correct.
+
+From Centro Require Import Model.LutMake Proofs.LutMake.
+
+(* Full: a masked table wrapper = fill the masked-out pixels with the documented value, apply the
+   documented rule to that image the requested number of times, restore the input outside the mask *)
+Theorem C06_wrapper_mask_correct : forall code P b v mode dt X m k,
+  nth_error doc_ops (Z.to_nat code) = Some (P, (b, Some v, mode)) -> 0 <= code < 13 ->
+  mode = -2 \/ 0 <= mode ->
+  (0 < length X)%nat ->
+  run_op code dt X (Some m) (Some k) =
+  Some (spec_restore X (Some m)
+          (iter (if mode =? -2 then k else Z.to_nat mode) (op_rule P b) (spec_masked X (Some m) v))).
+Proof. exact wrapper_mask_correct. Qed.
+Print Assumptions C06_wrapper_mask_correct.
+
+Theorem C06_mask_restores_input_outside : forall X m R p q,
+  0 <= p < gH X -> 0 <= q < gW X -> rd false m p q = false ->
+  rd false (spec_restore X (Some m) R) p q = rd false X p q.
+Proof. exact restore_outside. Qed.
+Print Assumptions C06_mask_restores_input_outside.
+
+(* Full: spur's loop over the two tables through index_lookup(…, 1), with or without mask *)
+Theorem C06_spur_correct : forall X M iters,
+  (0 < length X)%nat -> rect X ->
+  let Xm := masked_of X M false in
+  let n := match iters with None => length (argwhere1 Xm) | Some k => k end in
+  run_spur X M iters =
+  spec_restore X M (iter n (fun Y => op_rule doc_spur2 false (op_rule doc_spur1 false Y)) Xm).
+Proof. exact spur_correct. Qed.
+Print Assumptions C06_spur_correct.
+
+(* Full: until-convergence terminates for erosive and for extensive tables *)
+Theorem C06_monotone_terminates : forall T b X fuel,
+  (0 < length X)%nat -> rect X ->
+  (erosive T /\ (length (argwhere1 X) < fuel)%nat) \/ (extensive T /\ (length (argwhere1 (gnot X)) < fuel)%nat) ->
+  exists Y, lut_fix fuel T b X = Some Y.
+Proof. exact monotone_terminates. Qed.
+Print Assumptions C06_monotone_terminates.
+
+(* Full: so table_lookup(iterations=None) returns a fixed point on every path for such tables
+   (images with fewer than FUEL = 600 set resp. clear pixels: the model's loop bound) *)
+Theorem C06_table_lookup_monotone_total : forall dt X T b,
+  (0 < length X)%nat -> rect X ->
+  (erosive T /\ (length (argwhere1 X) < FUEL)%nat) \/ (extensive T /\ (length (argwhere1 (gnot X)) < FUEL)%nat) ->
+  exists Y, table_lookup dt X T b None = Some Y /\ lut_step T b Y = Y /\ exists n, Y = lut_iter n T b X.
+Proof. exact table_lookup_monotone_total. Qed.
+Print Assumptions C06_table_lookup_monotone_total.
+
+(* Full: the table builders *)
+Theorem C06_make_table_spec : forall value pattern care bits,
+  length bits = 9%nat -> tbl (make_table value pattern care) (enc bits) = mk_rule value pattern care bits.
+Proof. exact make_table_spec. Qed.
+Print Assumptions C06_make_table_spec.
+
+Theorem C06_index_of_is_rule_index : forall bits, length bits = 9%nat -> index_of bits = enc bits.
+Proof. exact index_of_enc. Qed.
+Print Assumptions C06_index_of_is_rule_index.
+
+Theorem C06_pattern_of_index_of : forall bits, length bits = 9%nat -> pattern_of (index_of bits) = bits.
+Proof. exact pattern_of_index_of. Qed.
+Print Assumptions C06_pattern_of_index_of.
+
+Theorem C06_index_of_pattern_of : forall k, 0 <= k < 512 -> index_of (pattern_of k) = k.
+Proof. exact index_of_pattern_of. Qed.
+Print Assumptions C06_index_of_pattern_of.
